@@ -38,7 +38,7 @@ for p in props:
 
 man = {
     "version": 1,
-    "setup_cmd": "cd lean && lake build && cd .. && /venv/bin/python -c \"import hierarc, numpy\"",
+    "setup_cmd": "python3 tools/gen_lean_index.py && cd lean && lake build && cd .. && /venv/bin/python -c \"import hierarc, numpy\"",
     "hooks": {
         "guard": "HIERARC_VERIF",
         "enable": "no source hooks: all observation is done by harness-side wrappers installed in the harness process; hierarc is imported from the editable install of /repo (current working tree)",
